@@ -59,6 +59,9 @@ var boundedSpecs = []boundedSpec{
 	{prop: "C02", name: "C02#bounded#raw-condition-grouping", harness: "c02_bounded_test.go.txt", pkgDir: "clause", run: "TestGvcBoundedC02$",
 		statement: "for every raw condition built from atoms p,q joined by AND/OR in mixed case with space/tab/newline delimiters (up to the bound), used as a Where/Or/Not unit, inside a group, and under Not together with a map-style Eq condition: the text rendered by the real Build methods, evaluated with SQL precedence, equals the intended left-to-right combination of indivisible units for all 16 truth assignments",
 		quick: "2", thorough: "3"},
+	{prop: "C08", name: "C08#bounded#raw-condition-grouping", harness: "c02_bounded_test.go.txt", pkgDir: "clause", run: "TestGvcBoundedC02$",
+		statement: "(the soft-delete filter is ANDed to the user conditions: the grouping lemma of C02 is what keeps marked rows out) for every raw condition built from atoms p,q joined by AND/OR in mixed case with space/tab/newline delimiters (up to the bound), used as a Where/Or/Not unit, inside a group, and under Not together with a map-style Eq condition: the text rendered by the real Build methods, evaluated with SQL precedence, equals the intended left-to-right combination of indivisible units for all 16 truth assignments",
+		quick: "2", thorough: "3"},
 }
 
 var casesRe = regexp.MustCompile(`GVC-CASES (\d+)`)
